@@ -35,20 +35,118 @@ import numpy as np
 
 Q = Fraction
 
-__all__ = ['Q', 'jacobi', 'legendre', 'cheby1', 'cheby2', 'cheby3', 'cheby4', 'hermite_He', 'hermite_H', 'laguerre',
+__all__ = ['Q', 'GQ', 'to_number', 'jacobi', 'legendre', 'cheby1', 'cheby2', 'cheby3', 'cheby4', 'hermite_He', 'hermite_H', 'laguerre',
            'dickson1', 'dickson2', 'zernike_R', 'zernike_norm2', 'qcon', 'qbfs_closed', 'q_radial', 'q_value',
            'monomial_xy', 'hopkins_radial']
 
 
+class GQ:
+    """Gaussian rational a + i b with a, b Fractions: the exact value of a complex float.  Supports exactly the arithmetic the closed-form
+    sums below use (+, -, *, / by a rational, integer powers), so every definition evaluates unchanged at a complex point: a polynomial
+    with rational coefficients has one analytic continuation, and this is it, exactly."""
+    __slots__ = ('re', 'im')
+
+    def __init__(self, re, im=0):
+        self.re, self.im = Fraction(re), Fraction(im)
+
+    @staticmethod
+    def _co(o):
+        if isinstance(o, GQ):
+            return o
+        if isinstance(o, (int, Fraction)):
+            return GQ(o, 0)
+        return None
+
+    def __add__(self, o):
+        o = GQ._co(o)
+        return NotImplemented if o is None else GQ(self.re + o.re, self.im + o.im)
+    __radd__ = __add__
+
+    def __sub__(self, o):
+        o = GQ._co(o)
+        return NotImplemented if o is None else GQ(self.re - o.re, self.im - o.im)
+
+    def __rsub__(self, o):
+        o = GQ._co(o)
+        return NotImplemented if o is None else GQ(o.re - self.re, o.im - self.im)
+
+    def __neg__(self):
+        return GQ(-self.re, -self.im)
+
+    def __mul__(self, o):
+        o = GQ._co(o)
+        return NotImplemented if o is None else GQ(self.re * o.re - self.im * o.im, self.re * o.im + self.im * o.re)
+    __rmul__ = __mul__
+
+    def __truediv__(self, o):
+        if isinstance(o, (int, Fraction)):
+            return GQ(self.re / o, self.im / o)
+        return NotImplemented
+
+    def __pow__(self, k):
+        if not isinstance(k, int) or k < 0:
+            return NotImplemented
+        out, b = GQ(1), self
+        while k:
+            if k & 1:
+                out = out * b
+            b = b * b
+            k >>= 1
+        return out
+
+    def __eq__(self, o):
+        # a GQ never equals a Fraction / int, even with a zero imaginary part: the memo tables of this module (lru_cache, _POW) are keyed by
+        # the evaluation point, and a rational key must not be served the complex-typed entry of the same value (or vice versa)
+        return isinstance(o, GQ) and self.re == o.re and self.im == o.im
+
+    def __hash__(self):
+        return hash(('GQ', self.re, self.im))
+
+    def same_value(self, o):
+        o = GQ._co(o)
+        return o is not None and self.re == o.re and self.im == o.im
+
+    def __bool__(self):
+        return bool(self.re) or bool(self.im)
+
+    def __complex__(self):
+        return complex(_to_float(self.re), _to_float(self.im))
+
+    def __abs__(self):
+        return abs(complex(self))
+
+    @property
+    def denominator(self):
+        return max(self.re.denominator, self.im.denominator)
+
+    def __repr__(self):
+        return f'GQ({self.re}, {self.im})'
+
+
+def _to_float(q):
+    """float(q) for a Fraction, +-inf when the value is beyond the double range (float() raises OverflowError there)."""
+    try:
+        return float(q)
+    except OverflowError:
+        return math.inf if q > 0 else -math.inf
+
+
+def to_number(q):
+    """Round an exact value once: float for a Fraction (+-inf beyond the double range), complex for a Gaussian rational."""
+    return complex(q) if isinstance(q, GQ) else _to_float(q)
+
+
 def rat(x):
-    """Exact rational value of an int / float / numpy scalar / Fraction / 'p/q' string."""
-    if isinstance(x, Fraction):
+    """Exact value of an int / float / numpy scalar / Fraction / 'p/q' string (a Fraction) or of a complex number (a Gaussian rational GQ)."""
+    if isinstance(x, (Fraction, GQ)):
         return x
     if isinstance(x, (int, str)):
         return Fraction(x)
     if isinstance(x, (np.integer,)):
         return Fraction(int(x))
-    return Fraction(float(x))      # exact: floats are dyadic rationals (float32 -> float is exact too)
+    if isinstance(x, (complex, np.complexfloating)):
+        return GQ(Fraction(float(x.real)), Fraction(float(x.imag)))
+    return Fraction(float(x))      # exact: floats are dyadic rationals (float32 -> float is exact too); numpy bool_ -> 0 / 1
 
 
 # ------------------------------------------------------------------------------------------ helpers
@@ -453,6 +551,28 @@ def selftest():
             al = Q(7, 10)
             assert dickson1(n + 1, al, x) == x * dickson1(n, al, x) - al * dickson1(n - 1, al, x)
             assert dickson2(n + 1, al, x) == x * dickson2(n, al, x) - al * dickson2(n - 1, al, x)
+    # Gaussian-rational points: the definitions evaluate to the polynomial's analytic continuation (checked against the recurrences, which hold
+    # identically in x, and against conjugation symmetry of real-coefficient polynomials)
+    for z in [GQ(Q(1, 4), Q(1, 2)), GQ(Q(-3, 8), Q(-1, 8)), GQ(Q(3, 4), 0)]:
+        zc = GQ(z.re, -z.im)
+        for n in range(1, 9):
+            a = Q(1, 2)
+            def same(p, q):
+                return GQ._co(p).same_value(q)
+            assert same((n + 1) * laguerre(n + 1, a, z), (2 * n + 1 + a - z) * laguerre(n, a, z) - (n + a) * laguerre(n - 1, a, z))
+            assert same(hermite_He(n + 1, z), z * hermite_He(n, z) - n * hermite_He(n - 1, z))
+            assert same(hermite_H(n + 1, z), 2 * z * hermite_H(n, z) - 2 * n * hermite_H(n - 1, z))
+            assert same(cheby1(n + 1, z), 2 * z * cheby1(n, z) - cheby1(n - 1, z))
+            assert same(cheby2(n + 1, z), 2 * z * cheby2(n, z) - cheby2(n - 1, z))
+            assert same(dickson1(n + 1, Q(7, 10), z), z * dickson1(n, Q(7, 10), z) - Q(7, 10) * dickson1(n - 1, Q(7, 10), z))
+            assert same(jacobi(n, Q(3, 10), Q(6, 5), z), jacobi_2f1(n, Q(3, 10), Q(6, 5), z))
+            pz, pc = jacobi(n, Q(-1, 4), Q(-3, 4), z), jacobi(n, Q(-1, 4), Q(-3, 4), zc)
+            assert GQ._co(pz).re == GQ._co(pc).re and GQ._co(pz).im == -GQ._co(pc).im
+            assert same(qcon(n, z), z ** 4 * jacobi(n, Q(0), Q(4), 2 * z * z - 1))
+        if not z.im:
+            for n in range(0, 6):
+                assert GQ._co(jacobi(n, Q(1, 2), Q(-1, 2), z)).same_value(jacobi(n, Q(1, 2), Q(-1, 2), z.re)) and GQ._co(cheby3(n, z)).same_value(cheby3(n, z.re))
+                assert isinstance(jacobi(n, Q(1, 2), Q(-1, 2), z.re), Fraction) and isinstance(cheby3(n, z.re), Fraction)      # rational keys are never served complex entries
     # Zernike radial = Jacobi form
     for n in range(0, 9):
         for m in range(n % 2, n + 1, 2):
